@@ -4,6 +4,7 @@ import (
 	"bytes"
 	"fmt"
 	"math/rand"
+	"runtime"
 
 	"verif/harness/evid"
 	"verif/harness/oracle"
@@ -92,9 +93,11 @@ func pickIP(r *rand.Rand, ic ipCfg) (string, string, bool) {
 }
 
 func c05Run(run *evid.Run, r *rand.Rand, env *Env, ic ipCfg, n int) {
+	defer runtime.GOMAXPROCS(runtime.GOMAXPROCS(0))
 	for k := 0; k < n && run.NumViolations() <= 5; k++ {
 		if k%40 == 0 {
 			env.FreshKeys(6)
+			runtime.GOMAXPROCS(procsMix[(k/40)%len(procsMix)])
 		}
 		ip, ipClass, listed := pickIP(r, ic)
 		env.IP = ip
